@@ -44,7 +44,11 @@ def run(ctx):
     # still hear the abort
     for site, action in (("writer.recv", "panic"), ("writer.done", "return")):
         for slow in (("slow80",) if q else ("slow80", "slow400")):
-            plans.append({"binary": "hooked", "site": site, "hit": 7, "action": action, "chronyd": "answer", "chronyd_script": [[2.2, slow]], "fire_within_s": 60})
+            plans.append({"binary": "hooked", "site": site, "hit": 7, "action": action, "chronyd": "answer", "chronyd_script": [[2.2, slow]], "fire_within_s": 60, "optional_fault": True})
+        # the same with the writer dying at a given time (6 s after its second wait for a message began)
+        # rather than after a number of messages - it may not get any once chronyd is slow
+        for slow in (("slow80",) if q else ("slow80", "slow400")):
+            plans.append({"binary": "hooked", "site": "writer.recv", "hit": 2, "action": "panicafter6000", "chronyd": "answer", "chronyd_script": [[2.2, slow]], "fire_within_s": 60})
     # environment: somebody else (a second instance, a backup tool, a previous instance not yet gone) holds a
     # lock on the segment file for the whole run; a worker then dies
     for lock in ("flock", "fcntl"):
